@@ -303,7 +303,7 @@ def b_round(ex, vals, s, e):
     if len(vals) == 1:
         if v.t is INT:
             return [X.Res(s, v)]
-        r = fresh('round', z3.IntSort())
+        r = ROUND(v.z)
         # |x - round(x)| <= 1/2 (ties to even left unspecified: sound over-approximation)
         s.assume(v.z - z3.RealVal('1/2') <= z3.ToReal(r), z3.ToReal(r) <= v.z + z3.RealVal('1/2'))
         ex.assumed('round(x) (one argument) is any integer within 1/2 of x (tie rule not modelled)')
@@ -313,6 +313,7 @@ def b_round(ex, vals, s, e):
 
 
 RND = z3.Function('rnd', z3.RealSort(), z3.IntSort(), z3.RealSort())
+ROUND = z3.Function('round_int', z3.RealSort(), z3.IntSort())
 
 
 def b_abs(ex, vals, s, e):
@@ -464,6 +465,8 @@ def apply_contract(ex, c, args, s, e):
     post = c.ensures(C1)
     sn.assume(*C1.side)
     sn.assume(post)
+    if c.ghost_update is not None:
+        c.ghost_update(Ctx(ex, sn, pre_st, args, result=result), sn)
     out.append(Res(sn, result))
     return out
 
